@@ -156,6 +156,9 @@ def _c11_scripts():
 PROPS["C11"] = dict(
     level="model_checking",
     steps=[
+        # everything send()/ping()/the Pong and Close replies write goes through Vec::<u8>::from(Frame) / Message::to_frame / Frame::new:
+        # well-formedness of the written bytes for EVERY payload length is the encoder unit of C10 (unbounded)
+        dict(kind="verus", unit="c10_encode", code_functions=["from", "new", "to_frame"]),
         dict(kind="kani", crate="humphrey_ws", module="in_ws", tag="c11a", jobs=8, harnesses=[
             H("c11_frame_nonblocking_arrived0", "modular", "Frame::from_stream_nonblocking with nothing arrived: `nothing yet`, no byte consumed, stream left blocking"),
             H("c11_frame_nonblocking_arrived1", "modular", "only the first header byte has arrived: the decoder continues from the frame's real 2 header bytes, after consuming exactly 2, in blocking mode (any 6 bytes)"),
@@ -205,8 +208,9 @@ PROPS["C09"]["assumptions"] += [
 PROPS["C09"]["not_covered"] += ["the bytes written upstream (request serialisation uses format!): 'request unchanged except X-Forwarded-For' is not decided", "route-prefix stripping in proxy_handler", "DNS resolution of targets (to_socket_addrs().unwrap() in proxy_handler)"]
 
 PROPS["C04"] = dict(
-    level="model_checking",
+    level="proof",
     steps=[
+        dict(kind="verus", unit="c04_routing", code_functions=["get_handler", "route_matches"]),
         dict(kind="kani", crate="humphrey", module="in_app", tag="c04", jobs=4, unwind_rules=[(r"memchr", 12)], harnesses=[
             H("c04_get_handler_with_host", "bounded",
               "get_handler with a Host header, over EVERY match table (which host patterns / route patterns match): first matching route of the first matching host sub-app, "
@@ -219,9 +223,10 @@ PROPS["C04"] = dict(
         ]),
     ],
     kani_functions=[dict(file="humphrey/src/app.rs", item="get_handler, call_websocket_handler", engine="kani")],
-    assumptions=["MODULAR: krauss::wildcard_match is replaced by its contract (a function of pattern and text; decided under C05) in the form of a symbolic match table",
+    assumptions=["MODULAR: krauss::wildcard_match is replaced by its contract (a function of pattern and text; decided under C05): an uninterpreted spec function in the Verus unit, a symbolic match table in the Kani harnesses",
+                 "Verus unit: Headers::get(Host) is a contract-only callee (the Host value is an uninterpreted function of the header block); field types outside get_handler's cone (Method, Address, Cors, Headers, the handler traits) are opaque placeholders of the same name; shims vf_iter / vf_find for `.iter().find(..)`",
                  "registration order = Vec order (SubApp::with_route pushes; not exercised by the harness, which builds the vectors directly)"],
-    not_covered=["configurations with more than 2 host sub-apps or more than 2 routes per sub-app", "the tokio twin in humphrey/src/tokio/app.rs", "that the 404 response is produced when no handler is found (client_handler)"],
+    not_covered=["call_websocket_handler beyond 2 host sub-apps x 2 routes (its effect is a dyn call, observed only by the Kani harnesses; get_handler itself is proved for any configuration)", "the tokio twin in humphrey/src/tokio/app.rs", "that the 404 response is produced when no handler is found (client_handler)"],
 )
 
 _C16 = [
